@@ -173,6 +173,70 @@ def memoise_parser():
     S.parse_selection = cached
 
 
+CANON_WATER = {"HOH", "WAT", "SOL", "TIP3"}
+CANON_PROTEIN = {"ALA", "ARG", "ASN", "ASP", "CYS", "GLN", "GLU", "GLY", "HIS", "ILE", "LEU", "LYS", "MET", "PHE", "PRO",
+                 "SER", "THR", "TRP", "TYR", "VAL"}
+NAIVE = {
+    "name": lambda a: a.name, "index": lambda a: a.index, "resname": lambda a: a.residue.name,
+    "resid": lambda a: a.residue.index, "resSeq": lambda a: a.residue.resSeq, "chainid": lambda a: a.residue.chain.index,
+    "symbol": lambda a: a.element.symbol, "mass": lambda a: float(a.element.mass), "segment_id": lambda a: a.residue.segment_id,
+    "water": lambda a: a.residue.name in CANON_WATER, "protein_std": lambda a: a.residue.name in CANON_PROTEIN,
+    "backbone_std": lambda a: a.residue.name in CANON_PROTEIN and a.name in ("N", "CA", "C", "O"),
+}
+
+
+def sel(top, s):
+    try:
+        r = top.select(s)
+        return [int(x) for x in r]
+    except Exception as e:  # noqa: BLE001
+        return "ERR:" + cls(e)
+
+
+def run_meta(tops, checks):
+    """oracles that do not use the model: set algebra of sub-selections, range/list expansions, alias equivalence,
+    and direct attribute comparison on the atoms; returns the checks that fail"""
+    import operator
+    bad = []
+    for c in checks:
+        top = tops[c["topo"]]
+        allidx = [a.index for a in top.atoms]
+        k = c["kind"]
+        lhs = sel(top, c["lhs"])
+        if k in ("and", "or", "not", "same"):
+            parts = [sel(top, x) for x in c["parts"]]
+            if any(isinstance(x, str) for x in parts):
+                continue                      # a part raises: nothing to relate
+            if k == "and":
+                want = sorted(set(parts[0]).intersection(*parts[1:]))
+            elif k == "or":
+                want = sorted(set().union(*parts))
+            elif k == "not":
+                want = [i for i in allidx if i not in set(parts[0])]
+            else:
+                want = parts[0]
+        elif k == "naive":
+            f = NAIVE[c["attr"]]
+            if c["op"] == "truth":
+                want = [a.index for a in top.atoms if f(a)]
+            elif c["op"] == "in":
+                want = [a.index for a in top.atoms if f(a) in c["value"]]
+            elif c["op"] == "range":
+                want = [a.index for a in top.atoms if c["value"][0] <= f(a) <= c["value"][1]]
+            else:
+                op = {"==": operator.eq, "!=": operator.ne, "<": operator.lt, "<=": operator.le, ">": operator.gt,
+                      ">=": operator.ge}[c["op"]]
+                want = [a.index for a in top.atoms if op(f(a), c["value"])]
+        else:
+            raise ValueError(k)
+        ok = lhs == want and all(b > a for a, b in zip(lhs, lhs[1:]))
+        if not ok:
+            d = dict(c)
+            d.update(observed=lhs, expected=want)
+            bad.append(d)
+    return bad
+
+
 DEFAULT_LIMIT = sys.getrecursionlimit()
 
 
@@ -208,6 +272,10 @@ def main():
     req = json.load(sys.stdin)
     if req["mode"] == "tables":
         out = tables()
+    elif req["mode"] == "meta":
+        memoise_parser()
+        tops = [build_topology(t) for t in req["topologies"]]
+        out = {"bad": run_meta(tops, req["checks"]), "n": len(req["checks"])}
     else:
         if req.get("memo", True):
             memoise_parser()
